@@ -74,6 +74,29 @@ def main():
             shutil.rmtree(vcopy, ignore_errors=True)
     return res
 
+def record(r):
+    """when the patch is a stored seed (seeded/<id>/patch.diff), record what the checks said in its meta.json"""
+    mp = os.path.join(os.path.dirname(r["patch"]), "meta.json")
+    if not os.path.exists(mp) or not r.get("checks"):
+        return
+    m = json.load(open(mp))
+    ca = m.get("checks_against_it") or {}
+    hist = m.get("history", [])
+    for p, res in r["checks"].items():
+        viol = [l for l in res["lines"] if l.startswith("VIOLATION")]
+        ok = [l for l in res["lines"] if l.startswith("OK ")]
+        new = "%s rc=%d %s" % (p, res["rc"], (viol or ok or ["?"])[0])
+        old = ca.get(p)
+        if old and str(old) != new and ("rc=0" in str(old) or "no-failing" in str(old) or "MISSED" in str(old)):
+            hist.append("earlier: %s" % str(old)[:200])
+        ca[p] = new
+    m["checks_against_it"] = ca
+    if hist:
+        m["history"] = hist
+    json.dump(m, open(mp, "w"), indent=1)
+
 if __name__ == "__main__":
     r = main()
+    if r:
+        record(r)
     print(json.dumps(r)[:2000])
